@@ -291,7 +291,9 @@ Inductive label :=
 | LAcc (k : Z)                           (* fragmentingReader.Read copies out of the current chunk *)
 | LCloseLast (k : Z)                     (* fragmentingReader.Close of the last argument *)
 | LRespErr (k : Z)                       (* InboundCall.Response() copies the call's error to the response *)
-| LRespSysErr (k : Z)                    (* InboundCallResponse.SendSystemError up to conn.SendSystemError *)
+| LRespSysErr (k : Z)                    (* InboundCallResponse.SendSystemError without conn.SendSystemError (= LConnSysErr, which
+                                            comes FIRST since fix 1893de8 "a handler's system error is queued before its exchange is
+                                            shut down"): state complete, doneSending, releasePreviousFragment *)
 | LDispatchFail (k : Z)                  (* dispatchInbound: readMethod failed *)
 | LRecvMsg (k : Z)                       (* Connection.recvMessage (ping) *)
 | LWNew (k : Z) (wok : bool)             (* reqResWriter.newFragment *)
